@@ -9,7 +9,7 @@ REPLAY = os.path.join(VERIF, 'replay')
 HAVE = {'C01', 'C02', 'C16', 'C17', 'C18', 'C03', 'C04', 'C05', 'C06', 'C07', 'C08', 'C09', 'C10', 'C11', 'C12', 'C13', 'C14', 'C15', 'C19', 'C20'}
 RIDS = {'C08': ['C08', 'C08Q'], 'C07': ['C07']}     # replay-crate dispatch ids per property (default: the property id)
 # dispatch ids of the always-run bounded stand-in where it is a module of its own (the witness search keeps the property id)
-BRIDS = {'C15': ['C15E'], 'C02': ['C02E'], 'C04': ['C04', 'C04B'], 'C01': ['C01E', 'C01D'], 'C09': ['C09', 'C01E']}
+BRIDS = {'C15': ['C15E'], 'C02': ['C02E', 'C02P'], 'C04': ['C04', 'C04B'], 'C01': ['C01E', 'C01D'], 'C09': ['C09', 'C01E']}
 _cache = {}
 
 
@@ -93,8 +93,8 @@ BOUNDED = {
                      'three exchanges, shared asset names, index != position): every fill sequence up to a depth bound over small alphabets on instrument pairs / triples, the '
                      'crafted c02 scripts on all instruments at once in several interleavings, seeded random histories (increase / reduce / exact close / flip); after EVERY event '
                      'EVERY instrument: position = net filled quantity of its OWN instrument, closed record iff its net reaches or crosses zero, realised PnL and fee conservation, '
-                     'fill ids, instruments not named untouched',
-                bound={'quick': '~252k events', 'thorough': '~1.9M events'}),
+                     'fill ids, instruments not named untouched; and (dispatch id C02P) the real Engine::process over random event histories with a strategy that issues orders on the same events: the audit record of a fill carries a position-closed record exactly when the fill takes the net quantity to or across zero',
+                bound={'quick': '~252k events + 10k engine histories', 'thorough': '~1.9M events + 200k engine histories'}),
     'C15': dict(what='the REAL EngineState (and, for half of the random histories, Engine::process) over six instruments on several exchanges: every sequence with repetition '
                      'up to a length bound over four event alphabets (trades with receive latency larger than the exchange-time gaps, equal / older exchange times, fills stamped '
                      'later than the following market data, two-sided / one-sided / weighted L1 books) plus seeded random histories of 6..65 events; after every delivery: the '
